@@ -1069,6 +1069,29 @@ class Arr:
     def exp(self):
         return self._like([_to_real(a).exp() for a in self._flat()], kind="real")
 
+    def log2(self):
+        def f(a):
+            if isinstance(a, Sp):
+                return a if a.k in ("nan", "inf") else NAN
+            a = _to_real(a)
+            if bool(a > 0):
+                return a.log2()
+            return NINF if bool(a == 0) else NAN
+        return self._like([f(a) for a in self._flat()], kind="real")
+
+    def floor(self):
+        return self._like([a if isinstance(a, Sp) else _to_real(a).floor() for a in self._flat()], kind="real")
+
+    def ceil(self):
+        return self._like([a if isinstance(a, Sp) else _to_real(a).ceil() for a in self._flat()], kind="real")
+
+    def exp2(self):
+        def f(a):
+            if isinstance(a, Sp):
+                return a if a.k in ("nan", "inf") else R(0)
+            return _to_real(a).exp2()
+        return self._like([f(a) for a in self._flat()], kind="real")
+
     def sign(self):
         def sg(a):
             if isinstance(a, Sp):
